@@ -193,12 +193,14 @@ class StateMachine(metaclass=StateMachineMetaclass):
 
     def _register_callbacks(self, listeners: List[object]):
         self._remember_listeners(listeners)
+        # an object given twice (or the machine / the model given as listener) provides once
+        own = (id(self), id(self.model))
         self._add_listener(
             Listeners.from_listeners(
                 (
                     Listener.from_obj(self, skip_attrs=self._protected_attrs),
                     Listener.from_obj(self.model, skip_attrs={self.state_field}),
-                    *(Listener.from_obj(listener) for listener in listeners),
+                    *(Listener.from_obj(o) for o in self._listeners if id(o) not in own),
                 )
             )
         )
@@ -233,6 +235,9 @@ class StateMachine(metaclass=StateMachineMetaclass):
 
             :ref:`listeners`.
         """
+        # an object that already provides callbacks is not attached a second time
+        attached = {id(o) for o in (self, self.model, *self._listeners)}
+        listeners = tuple(o for o in listeners if id(o) not in attached)
         self._remember_listeners(listeners)
         return self._add_listener(
             Listeners.from_listeners(Listener.from_obj(o) for o in listeners),
